@@ -22,6 +22,8 @@ NTREES = 4
 NINP = 2
 F901 = -1
 FIXS1 = -1
+FIXS2 = -1
+FLAG2_FREE = 1
 INVALID = "[2] O [501]"
 
 
@@ -66,10 +68,14 @@ def outcome(expr, text=None):
         tree = await parse_expression_including_unresolved_subexpressions(expr, resolve_packages=True)
         return await evaluate_ahb_expression_tree(tree)
 
+    if "O [501]" in expr:
+        return ("invalid", None)  # invalid by construction (hint or-ed with a requirement constraint): no evaluation needed
     try:
         r = detloop.run(go())
     except InvalidExpressionError as e:
         return ("invalid", e.error_message)
+    except Exception as e:  # pylint:disable=broad-except
+        raise xs.HarnessError(f"reference evaluation of the valid expression {expr!r} failed: {type(e).__name__}: {e}") from e
     rc, fc = r.requirement_constraint_evaluation_result, r.format_constraint_evaluation_result
     return ("ok", r.requirement_indicator.name, rc.requirement_constraints_fulfilled, rc.hints, fc.format_constraints_fulfilled, fc.error_message)
 
@@ -151,7 +157,7 @@ INP = ((None, "text", "A"), ("2022-01-01T00:00:00+00:00", "", "ZZZ"), ("x", None
 
 def tree_glue(s1: int, s2: int, s3: int, soll: bool, iv: int, f901: bool, flag2: bool) -> bool:
     """
-    pre: (FIXS1 < 0 or s1 == FIXS1) and 0 <= s1 < 3 and 0 <= s2 < 3 and 0 <= s3 < 3 and 0 <= iv < NINP and (F901 < 0 or f901 == (F901 == 1))
+    pre: (FIXS1 < 0 or s1 == FIXS1) and (FIXS2 < 0 or s2 == FIXS2) and (FLAG2_FREE == 1 or flag2 != soll) and 0 <= s1 < 3 and 0 <= s2 < 3 and 0 <= s3 < 3 and 0 <= iv < NINP and (F901 < 0 or f901 == (F901 == 1))
     post: _
     """
     s1, s2, s3, iv = xs.pick(s1, 0, 3), xs.pick(s2, 0, 3), xs.pick(s3, 0, 3), xs.pick(iv, 0, NINP)
@@ -213,7 +219,7 @@ def tree_glue(s1: int, s2: int, s3: int, soll: bool, iv: int, f901: bool, flag2:
         for w, o in zip(want, obs):
             if w.get("invalid"):
                 continue
-            if w["kind"] == "level" and (o["status"] != w["status"] or o["hints"] != w["hints"]):
+            if w["kind"] == "level" and (o["status"] != w["status"] or (o["hints"] != w["hints"] and not w.get("invalid"))):
                 return xs.fail(f"{ctx}: {w['disc']} reported {o['status']} (hints {o['hints']!r}), own status x parent table gives {w['status']} (hints {w['hints']!r})", **d)
             if w["kind"] == "freetext":
                 exp = w["status_base"] + w["suffix"]
